@@ -39,6 +39,12 @@ def link_tree(r):
             for k in range(r.range(0, 2)):
                 ents.append({"path": "%s/f%d_%d.txt" % (d, j, k), "kind": "f", "size": r.choice([0, 3, 10]), "mode": 0o644,
                              "mtime": 1700000100 + k, "lines": 1})
+    # two directories whose names differ in letter case only are two directories
+    twins = r.chance(1, 2)
+    if twins:
+        for d, f in (("out/Lib", "BIG.so"), ("out/lib", "small.so")):
+            ents.append({"path": d, "kind": "d", "mode": 0o755, "mtime": 1700000000})
+            ents.append({"path": d + "/" + f, "kind": "f", "size": 3, "mode": 0o644, "mtime": 1700000200, "lines": 1})
     alld = [e["path"] for e in ents if e["kind"] == "d"]
     allf = [e["path"] for e in ents if e["kind"] == "f"]
     nl = r.range(1, 6)
@@ -66,6 +72,9 @@ def link_tree(r):
         else:
             tgt = r.choice(alld)
         links.append((name, tgt))
+    if twins:
+        links.append(("root/to-Lib", "out/Lib"))
+        links.append(("root/to-lib", "out/lib"))
     return ents, links
 
 
